@@ -84,6 +84,12 @@ def main():
     res.append(semantic('kernels2lean.py','left matrix transposed',[(I,"intermed[j, i] += mult_table_vals[test_ind] * x[k]","intermed[i, j] += mult_table_vals[test_ind] * x[k]")]))
     res.append(semantic('kernels2lean.py','left matrix reads x[i]',[(I,"intermed[j, i] += mult_table_vals[test_ind] * x[k]","intermed[j, i] += mult_table_vals[test_ind] * x[i]")]))
     res.append(harmless('kernels2lean.py','left matrix factors commuted',[(I,"intermed[j, i] += mult_table_vals[test_ind] * x[k]","intermed[j, i] += x[k] * mult_table_vals[test_ind]")]))
+    G3='clifford/tools/g3c/__init__.py'
+    res.append(semantic('mv2lean.py','annihilate_k: K[0] + K(4)',[(G3,"k_4 = K.value[0] - K(4)","k_4 = K.value[0] + K(4)")]))
+    res.append(semantic('mv2lean.py','positive_root: sigma - norm_s',[(G3,"    denominator = (math.sqrt(2) * math.sqrt(sigma.value[0] + norm_s))\n    return (sigma + norm_s)/denominator","    denominator = (math.sqrt(2) * math.sqrt(sigma.value[0] + norm_s))\n    return (sigma - norm_s)/denominator")]))
+    res.append(semantic('mv2lean.py','rotor_between_objects_root: C from X1*X2',[(G3,"        C = 1 + gamma*(X2 * X1)\n        if abs(C.value[0]) < 1E-6:\n            R = (I5eo * X21)(2).normal()","        C = 1 + gamma*(X1 * X2)\n        if abs(C.value[0]) < 1E-6:\n            R = (I5eo * X21)(2).normal()")]))
+    res.append(semantic('mv2lean.py','dorst_norm: plus',[(G3,"sqrd_ans = sigma.value[0] ** 2 - (sigma_4 * sigma_4).value[0]","sqrd_ans = sigma.value[0] ** 2 + (sigma_4 * sigma_4).value[0]")]))
+    res.append(harmless('mv2lean.py','rotor_between_objects_root: C = 1 + (X2*X1)*gamma',[(G3,"        C = 1 + gamma*(X2 * X1)\n        if abs(C.value[0]) < 1E-6:\n            R = (I5eo * X21)(2).normal()","        C = 1 + (X2 * X1)*gamma\n        if abs(C.value[0]) < 1E-6:\n            R = (I5eo * X21)(2).normal()")]))
     shutil.rmtree(SCR, ignore_errors=True)
     print("all as expected" if all(res) else "SOME UNEXPECTED")
     return 0 if all(res) else 1
